@@ -234,6 +234,7 @@ func (sh *shard) restore(t evid.TB, path string) {
 	st := srv.PublishStream(path, sdpAV)
 	sh.mu.Lock()
 	sh.streams[path] = st
+	sh.n[path] = 0 // a new stream starts at RTP timestamp 90000, far from the 32-bit wrap (see recycle)
 	sh.mu.Unlock()
 	// The playlist needs three finished segments, i.e. four GOPs, and is produced
 	// by the stream's demuxer and muxer goroutines some time after the frames were
@@ -278,6 +279,26 @@ func (sh *shard) plainLive() []string {
 		}
 	}
 	return out
+}
+
+// recycle keeps every stream's RTP timestamps inside the domain ipchub handles:
+// a frame advances the 90 kHz timestamp by 54000, so the 32-bit value wraps after
+// 79536 frames, and a stream whose first seconds straddle the wrap never gets
+// an HLS playlist (probe: first frame at timestamp 4294602000, 4294818000 or
+// 4294872000 — no playlist after 400 more frames; the wrap is outside the
+// domain of this harness, DESIGN §6). A stream that has published more than
+// half of that is replaced by a fresh one between two histories.
+func (sh *shard) recycle(t evid.TB) {
+	for _, p := range sh.live {
+		sh.mu.Lock()
+		n, st := sh.n[p], sh.streams[p]
+		sh.mu.Unlock()
+		if n > 40000 && st != nil {
+			srv.Unpublish(st)
+			sh.restore(t, p)
+			evid.Class("world:stream-recycled-before-timestamp-wrap")
+		}
+	}
 }
 
 func (sh *shard) stream(path string) *media.Stream {
